@@ -73,16 +73,19 @@ theorem tbl_append_spec {t : Tbl} (h : TblOK true t) (full : Name) :
     have hnot : full ∉ t.names := (lookup_none_iff t.dict full).mp hl
     have hidx : t.index = t.names := by simpa using h.idx
     have hlen : t.index.length = t.names.length := by rw [hidx]
-    simp only [appendId]
-    have hn : ({ dict := t.dict ++ [(full, t.index.length)], index := t.index ++ [full] } : Tbl).names
+    -- whichever length the source uses for the new id, it is the number of names
+    have hid : appendId t.index.length t.dict.length = t.names.length := by
+      simp [appendId, hlen, Tbl.names]
+    rw [hid]
+    have hn : ({ dict := t.dict ++ [(full, t.names.length)], index := t.index ++ [full] } : Tbl).names
         = t.names ++ [full] := by simp [Tbl.names]
     refine ⟨⟨?_, ?_, ?_⟩, ?_, ?_, ?_⟩
-    · rw [hn, List.zipIdx_append, ← h.zip, hlen]; simp
+    · rw [hn, List.zipIdx_append, ← h.zip]; simp
     · rw [hn]; exact List.nodup_append.mpr ⟨h.nodup, by simp, by
         intro a ha b hb; simp at hb; subst hb; intro e; subst e; exact hnot ha⟩
     · rw [hn]; simp [hidx]
     · rw [hn]; exact List.prefix_append _ _
-    · rw [hn, hlen]; simp
+    · rw [hn]; simp
     · rw [hn]; intro f hf; simpa using hf
 
 /-! ### re-indexing the persisted dictionary -/
@@ -566,6 +569,7 @@ def Op.OK : Op → Prop
   | .register task alg sv _ v => NameOK task ∧ NameOK alg.1 ∧ NameOK sv.1 ∧ NameOK v.1
   | .store _ tn task alg sv v _ _ => NameOK tn ∧ NameOK task ∧ NameOK alg.1 ∧ NameOK sv.1 ∧ NameOK v.1
   | .load _ tn task alg sv v => NameOK tn ∧ NameOK task ∧ NameOK alg.1 ∧ NameOK sv.1 ∧ NameOK v.1
+  | .remove _ _ _ alg sv v => NameOK alg ∧ NameOK sv ∧ NameOK v
   | _ => True
 
 theorem named_of_names {s s' : St} (h : ∀ t, (s'.tbl t).names = (s.tbl t).names) (hn : Named s) :
